@@ -242,7 +242,10 @@ def Ctx.step (c : Ctx) (line : String) : Ctx :=
     | some code =>
       let startI := intD start
       let s' := s.addWarrior { code := code.toArray, start := startI }
-      let c := { c with st := { c.st with spec := c.st.spec.add (code.map Instr.abs) startI.toNat, sim := some s' },
+      -- (the reference keeps its warriors in a list: with tens of thousands of them it is only
+      -- followed when it is switched on, i.e. on cores of at most 300 cells)
+      let spec' := if c.ex.specOn then c.st.spec.add (code.map Instr.abs) startI.toNat else c.st.spec
+      let c := { c with st := { c.st with spec := spec', sim := some s' },
                         ex := { c.ex with specOn := c.ex.specOn && startI ≥ 0 } }
       if implEnded then endCase (c.fail "PROP" s!"C04+C13+SPEC AddWarrior {resp}") else
       if resp != "ok" then c.fail "CORR" s!"AddWarrior: model ok impl {resp}" else c
